@@ -17,6 +17,7 @@ CONSTANTS PinAuthFlagTrusted,   \* no security-level check, Reports may be retur
           PinConfirmedOnlyGet,  \* reportable flag only for Get/GetNext                         (fixed: c3884d2)
           PinReserialise,       \* digest verified over a re-serialisation                      (fixed: 0bd9b8b)
           PinLazyErrorFirst,    \* the PDU's error-status raises (lazy decode) before the security-level check   (fixed: see F21)
+          PinStatsInResponse,   \* usmStats OIDs are taken for error indicators in Responses too: the counters cannot be read   (fixed: see F23)
           Attack                \* TRUE: the attacker owns the channel; FALSE: only authentic responses are delivered
 
 Levels == {"noauth", "auth", "authpriv"}
@@ -67,6 +68,12 @@ Authentic(l, len127) ==
                                    ELSE [form |-> "plain", key |-> "-", pdu |-> GoodPdu]]
   IN [c |-> c, mac |-> IF HasAuth(l) THEN [kind |-> "mac", key |-> "Ku", over |-> c] ELSE [kind |-> "empty"]]
 
+\* ... whose bindings may be the usmStats counters themselves, read as ordinary objects
+AuthenticV(l, len127, v) ==
+  LET a == Authentic(l, len127)
+      c == [a.c EXCEPT !.data.pdu.vbs = v]
+  IN [c |-> c, mac |-> IF HasAuth(l) THEN [kind |-> "mac", key |-> "Ku", over |-> c] ELSE [kind |-> "empty"]]
+
 \* Dolev-Yao: having seen the authentic message a, the attacker can send m iff it never needs a MAC under Ku
 \* or a ciphertext under Kp other than the ones a contains
 CanSend(a, m) ==
@@ -102,7 +109,7 @@ Process(l, m) ==
             ELSE IF ~PinAuthFlagTrusted /\ HasAuth(l) /\ ~m.c.auth THEN Exc("AuthenticationError")
             ELSE IF ~PinAuthFlagTrusted /\ HasPriv(l) /\ ~m.c.priv THEN Exc("UnsupportedSecurityLevel")
             ELSE IF p.es # "none" THEN Exc(ErrCls(p.es))
-            ELSE IF p.vbs = "usmStats" THEN Exc("SnmpError")
+            ELSE IF PinStatsInResponse /\ p.vbs = "usmStats" THEN Exc("SnmpError")   \* in a Response the counters are data like any other object
             ELSE IF p.reqid # 1 THEN Exc("InvalidResponseId")
             ELSE [kind |-> "result", type |-> p.type, vbs |-> p.vbs]
 
